@@ -147,6 +147,71 @@ def sampleMateInteger (decn : List Nat) (xmap : Rows) (nc : Nat) (rem : List Nat
 def sampleMateReal (sus : List Nat) (xmap : Rows) (nc : Nat) (perm2 : List Nat) : Except String Rows :=
   if sus.length ≠ nc then .error "value" else lookup xmap (Np.take perm2 sus)
 
+/-! ### proposed repair of D20 (`patch_D20.diff`, NOT applied to /repo): `proportional_choice`
+`counts = (N * decn) // total`; the `N - counts.sum()` slots left over go, one each, to distinct candidates
+drawn with `rng.choice(n, left, replace=False, p = frac / frac.sum())` (`frac = N*decn - counts*total`);
+`out = numpy.repeat(arange(n), counts)`; `rng.shuffle(out)`.  Oracles: `extra` (the choice), `perm`. -/
+
+/-- `(N * decn) // total`, plus one for every candidate drawn into `extra` -/
+def shareCounts (decn : List Nat) (N : Nat) (extra : List Nat) : List Nat :=
+  (List.range decn.length).map (fun i => N * decn.getD i 0 / decn.sum + extra.count i)
+
+/-- slots left after every candidate has received the floor of its share -/
+def shareLeft (decn : List Nat) (N : Nat) : Nat :=
+  N - ((List.range decn.length).map (fun i => N * decn.getD i 0 / decn.sum)).sum
+
+/-- `proportional_choice(decn, N, rng)` of the patch; a non-positive total is rejected (`ValueError`) -/
+def proportionalChoice (decn : List Nat) (N : Nat) (extra perm : List Nat) : Except String (List Nat) :=
+  if decn.sum = 0 then .error "value"
+  else .ok (Np.take perm (Np.repeatEach (shareCounts decn N extra) (List.range decn.length)))
+
+/-- IntegerSelectionConfiguration.sample_xconfig as patched -/
+def sampleIntegerRepaired (decn : List Nat) (nc np : Nat) (extra perm : List Nat)
+    (orders rowperms : List (List Nat)) : Except String Rows := do
+  let flat ← proportionalChoice decn (nc * np) extra perm
+  arrange flat nc np orders rowperms
+
+/-! ### one configuration object over its lifetime
+`sample_xconfig` reads `self.xconfig_decn` afresh on every call: re-assigning the attribute and revising the
+array in place (directly or through the solution array it is a view of) are indistinguishable to it. -/
+
+/-- what can happen to a live SubsetSelectionConfiguration -/
+inductive CfgOp where
+  /-- `cfg.xconfig_decn = other` -/
+  | assign (d : List Nat)
+  /-- `cfg.xconfig_decn[...] = values` / `soln_decn[i, :] = values` -/
+  | edit (d : List Nat)
+  /-- `cfg.sample_xconfig()` with the generator draws it consumes -/
+  | sample (rem perm : List Nat) (orders rowperms : List (List Nat))
+
+/-- the decision in force and every table sampled so far (latest first) with the decision it was sampled for -/
+structure CfgState where
+  decn : List Nat
+  tables : List (List Nat × Except String Rows)
+
+def cfgStep (nc np : Nat) (s : CfgState) : CfgOp → CfgState
+  | .assign d => { s with decn := d }
+  | .edit d => { s with decn := d }
+  | .sample rem perm orders rowperms =>
+    { s with tables := (s.decn, sampleSubset s.decn nc np rem perm orders rowperms) :: s.tables }
+
+def cfgRun (nc np : Nat) (s : CfgState) (ops : List CfgOp) : CfgState := ops.foldl (cfgStep nc np) s
+
+/-- the variant of seeded change C07-d1 / self-test mutant `decision_values_stale_after_in_place_revision`:
+    the values are snapshotted at the first sample after an assignment and reused until the next assignment -/
+structure CfgStateCached where
+  decn : List Nat
+  cache : Option (List Nat)
+  tables : List (List Nat × Except String Rows)
+
+def cfgStepCached (nc np : Nat) (s : CfgStateCached) : CfgOp → CfgStateCached
+  | .assign d => { s with decn := d, cache := none }
+  | .edit d => { s with decn := d }
+  | .sample rem perm orders rowperms =>
+    let used := s.cache.getD s.decn
+    { s with cache := some used,
+             tables := (s.decn, sampleSubset used nc np rem perm orders rowperms) :: s.tables }
+
 /-! ### the real-valued configurations with the sampler inside the model
 `stochastic_universal_sampling(numpy.arange(len(decn)), decn, size, rng)` is C17's `Sampling.susDraws`
 (the code after fix fc545079): `a = arange(n)`, so `a[sel] = sel`.  Oracle inputs of the sampler:
@@ -338,6 +403,17 @@ variable {α : Type} [LE α] [DecidableLE α]
     (`obj[i] = evalfn([i])`), `obj.argsort(0)`, the first `ndecn` indices -/
 def sortingSubset (obj : List α) (k : Nat) : List Nat :=
   (Np.argsort (fun a b => decide (a ≤ b)) obj).take k
+
+/-- the same optimiser with numpy's own `obj.argsort(0)` as an oracle input `sigma` (numpy's default sort is not
+    stable: among tied objective values any order may come back); the first `ndecn` indices -/
+def sortingSubsetWith (sigma : List Nat) (k : Nat) : List Nat := sigma.take k
+
+/-- what `argsort` may return: a permutation of the positions along which the values do not decrease -/
+def validArgsort (obj : List α) (sigma : List Nat) : Bool :=
+  sigma.length == obj.length && (List.range obj.length).all (fun i => sigma.count i == 1) &&
+  (List.zipWith (fun i j => match obj[i]?, obj[j]? with
+      | some a, some b => decide (a ≤ b)
+      | _, _ => false) sigma sigma.tail).all id
 
 /-- Spec of "exactly the best candidates": k distinct valid candidates, none worse than an
     unchosen one would be better (weak inequality, so it is meaningful with ties as well) -/
